@@ -1562,6 +1562,12 @@ func (vr *varResolver) resolve(token Token) ([]Token, bool) {
 	}
 	variableName := nameIdent.Value
 
+	// "If there is a cycle in the dependency graph, all the custom properties in the cycle
+	// are invalid at computed-value time": references in fallbacks count, used or not
+	if _, known := vr.cyclic[variableName]; !known {
+		vr.cyclic[variableName] = vr.reaches(variableName, variableName, map[string]bool{})
+	}
+
 	for i, name := range vr.stack {
 		if name == variableName { // cycle: every property from here to the top of the stack is invalid
 			for _, cyclic := range vr.stack[i:] {
@@ -1584,6 +1590,44 @@ func (vr *varResolver) resolve(token Token) ([]Token, bool) {
 		return nil, false
 	}
 	return vr.resolveList(default_)
+}
+
+// reports whether the custom property `target` is referenced, directly or not, by the value of `from`
+func (vr *varResolver) reaches(from, target string, seen map[string]bool) bool {
+	if seen[from] {
+		return false
+	}
+	seen[from] = true
+	for _, name := range referencedVars(vr.computed[from], nil) {
+		if name == target || vr.reaches(name, target, seen) {
+			return true
+		}
+	}
+	return false
+}
+
+// names of the custom properties referenced by var() anywhere in `tokens` (fallbacks included)
+func referencedVars(tokens []Token, out []string) []string {
+	for _, token := range tokens {
+		switch token := token.(type) {
+		case pa.FunctionBlock:
+			if utils.AsciiLower(token.Name) == "var" {
+				if _, args := pa.ParseFunction(token); len(args) != 0 {
+					if ident, ok := args[0].(pa.Ident); ok {
+						out = append(out, ident.Value)
+					}
+				}
+			}
+			out = referencedVars(token.Arguments, out)
+		case pa.ParenthesesBlock:
+			out = referencedVars(token.Arguments, out)
+		case pa.SquareBracketsBlock:
+			out = referencedVars(token.Arguments, out)
+		case pa.CurlyBracketsBlock:
+			out = referencedVars(token.Arguments, out)
+		}
+	}
+	return out
 }
 
 func (vr *varResolver) resolveList(source []Token) ([]Token, bool) {
